@@ -283,6 +283,12 @@ pub fn check(case: &Case, obs: &mut Obs) -> CheckResult {
           return Ok(());
         }
       };
+      // Only the pairs a serialiser writes are durations "the API can express": |nanos| below one second, and of the
+      // sign of the seconds. What a reader makes of any other pair is its own business.
+      if nanos.unsigned_abs() >= 1_000_000_000 || (*secs > 0 && *nanos < 0) || (*secs < 0 && *nanos > 0) {
+        obs.discard("duration-pair-not-normalised");
+        return Ok(());
+      }
       let text = format!("[{secs},{nanos}]");
       let d: Duration = match catch(|| Duration::from_json(&text)) {
         Ok(Ok(d)) => d,
@@ -481,10 +487,16 @@ fn arith_json_strategy() -> impl Strategy<Value = Case> {
   (
     base_strategy(),
     prop_oneof![3 => -100_000i64..=100_000, 2 => -400_000_000_000i64..=400_000_000_000, 1 => any::<i64>()],
-    prop_oneof![2 => Just(0i32), 2 => -999_999_999i32..=999_999_999, 1 => any::<i32>()],
+    prop_oneof![2 => Just(0i32), 3 => 0i32..=999_999_999],
     any::<bool>(),
   )
-    .prop_map(|(base, secs, nanos, sub)| Case::ArithJson { base, secs, nanos, sub })
+    .prop_map(|(base, secs, nanos, sub)| Case::ArithJson {
+      base,
+      secs,
+      // the nanoseconds carry the sign of the seconds
+      nanos: if secs < 0 { -nanos } else { nanos },
+      sub,
+    })
 }
 
 fn year_strategy() -> impl Strategy<Value = i64> {
